@@ -480,6 +480,94 @@ func (s *longSim) concurrentPhase(bnd uint64) {
 	s.r.Count("concurrent_reader_errors(not judged)", int(errs.Load()))
 }
 
+// hookStore lets the harness act at one precise point of an event query: right after the
+// query has read a persisted bloom window from storage (and before it can do anything with it).
+// The armed action runs on the reader's own goroutine, inside the store's Get - a delay injected
+// at a collaborator boundary; Juno is not touched.
+type hookStore struct {
+	db.KeyValueStore
+	mu      stdsync.Mutex
+	afterBloomFetch func()
+	fired   int
+}
+
+func (h *hookStore) Get(key []byte, cb func([]byte) error) error {
+	err := h.KeyValueStore.Get(key, cb)
+	if err == nil && len(key) == 1+db.AggregatedBloomFilterRangeKeySize && key[0] == byte(db.AggregatedBloomFilters) {
+		h.mu.Lock()
+		f := h.afterBloomFetch
+		h.afterBloomFetch = nil
+		h.mu.Unlock()
+		if f != nil {
+			h.fired++
+			f()
+		}
+	}
+	return err
+}
+
+// fetchOvertakenByReorg: an event query has just fetched the completed window below bnd from
+// storage when the chain is reorganised back across bnd and regrown with other events - all of it
+// before the query continues. The in-flight query's own answer is not judged; afterwards, on
+// the quiescent node, every query must see the replacement blocks' events.
+func (s *longSim) fetchOvertakenByReorg(hs *hookStore, bnd uint64) {
+	if s.e.t.head() <= bnd {
+		return
+	}
+	s.restart(false) // fresh process: nothing cached
+	if s.dead {
+		return
+	}
+	t := s.e.t
+	// initialise the (lazy) running filter with a query that stays inside the running window: its
+	// initialisation reads persisted windows under the filter's own lock, and the action below must
+	// not run inside that (it would be the harness deadlocking itself, on one goroutine)
+	if ef, err := s.node.BC.EventFilter(nil, nil, noPre); err == nil {
+		_ = ef.SetRangeEndBlockByNumber(blockchain.EventFilterFrom, t.head())
+		_ = ef.SetRangeEndBlockByNumber(blockchain.EventFilterTo, t.head())
+		_, _, _ = ef.Events(nil, 10)
+		ef.Close()
+	}
+	t.note("directed: a query fetches window [%d,%d] from storage; before it continues the chain is reorganised across %d", bnd-window, bnd-1, bnd)
+	hs.mu.Lock()
+	hs.afterBloomFetch = func() {
+		s.revertTo(bnd - 2 - uint64(s.rng.IntN(6)))
+		if !s.dead {
+			s.regrow(bnd + 1 + uint64(s.rng.IntN(8)))
+		}
+	}
+	before := hs.fired
+	hs.mu.Unlock()
+	addr := longAddrs[s.rng.IntN(len(longAddrs))]
+	if ef, err := s.node.BC.EventFilter([]felt.Address{felt.Address(addr)}, nil, noPre); err == nil {
+		_ = ef.SetRangeEndBlockByNumber(blockchain.EventFilterFrom, bnd-40)
+		_ = ef.SetRangeEndBlockByNumber(blockchain.EventFilterTo, bnd-1)
+		var tok *blockchain.ContinuationToken
+		for p := 0; p < 200; p++ {
+			_, next, err := ef.Events(tok, 50)
+			if err != nil || next.IsEmpty() {
+				break
+			}
+			tok = &next
+		}
+		ef.Close()
+	}
+	hs.mu.Lock()
+	hs.afterBloomFetch = nil
+	fired := hs.fired > before
+	hs.mu.Unlock()
+	if fired {
+		s.r.Count("long_directed_window_fetch_overtaken_by_reorg", 1)
+		w := (bnd - 1) / window
+		t.cachedAt[w] = t.tick() // the overtaken query may have cached it (for the classifier)
+	} else {
+		s.r.Count("long_directed_window_fetch_not_reached", 1)
+	}
+	if !s.dead {
+		s.queries(6)
+	}
+}
+
 func longCase(r *lib.Run, idx int) {
 	rng := lib.Rng("C09/long", uint64(idx))
 	s := &longSim{r: r, idx: idx, rng: rng, k: 1}
@@ -510,6 +598,8 @@ func longCase(r *lib.Run, idx int) {
 		defer pdb.Close()
 		store, backend = pdb, "pebble"
 	}
+	hs := &hookStore{KeyValueStore: store}
+	store = hs
 	s.node = chain.NewNode(store, newState, nodeOpts...)
 	s.e = &env{r: r, idx: idx, tag: "long", t: newTracker(), bc: func() *blockchain.Blockchain { return s.node.BC }}
 	delta := 1 + uint64(rng.IntN(30))
@@ -535,6 +625,12 @@ func longCase(r *lib.Run, idx int) {
 		return
 	}
 	r.Count("long_blocks_built", int(base)+1)
+	if !r.Race || idx == 0 {
+		s.fetchOvertakenByReorg(hs, window*s.k)
+		if s.dead {
+			return
+		}
+	}
 	rounds := 6
 	if !r.Quick() {
 		rounds = 10
